@@ -160,9 +160,11 @@ func (rm *room) checkNE(ev gmsl.PDU, auth []gmsl.PDU) {
 		}
 	}
 	if oldEv == nil {
-		// no previous power levels: the rules only constrain the sender's
-		// right to send the event (and the creator / integer clauses above)
-		return
+		// no previous power levels: every threshold and user level has its
+		// default, the creator(s) the implicit creator level and everybody
+		// else 0 - the sender's current level is judged against those
+		old = map[string]any{}
+		r.Probe("first_power_levels_event_accepted")
 	}
 	get := func(m map[string]any, k string) (int64, bool) {
 		if m == nil {
@@ -181,6 +183,10 @@ func (rm *room) checkNE(ev gmsl.PDU, auth []gmsl.PDU) {
 		}
 		return d
 	}
+	oldContent := "(no power-levels event yet)"
+	if oldEv != nil {
+		oldContent = string(oldEv.Content())
+	}
 	fail := func(tag, what string, o int64, op bool, n int64, np bool) {
 		pv := func(v int64, p bool) string {
 			if !p {
@@ -188,7 +194,7 @@ func (rm *room) checkNE(ev gmsl.PDU, auth []gmsl.PDU) {
 			}
 			return fmt.Sprint(v)
 		}
-		r.Violate("C08", "ne", tag, "accepted power-levels event by %s (level %d) changes %s from %s to %s\n old=%s\n new=%s", sender, L, what, pv(o, op), pv(n, np), oldEv.Content(), ev.Content())
+		r.Violate("C08", "ne", tag, "accepted power-levels event by %s (level %d) changes %s from %s to %s\n old=%s\n new=%s", sender, L, what, pv(o, op), pv(n, np), oldContent, ev.Content())
 	}
 	for _, k := range namedOrder {
 		o, op := get(old, k)
@@ -223,6 +229,12 @@ func (rm *room) checkNE(ev gmsl.PDU, auth []gmsl.PDU) {
 		other := u != sender
 		raw := (op != np || o != n) && ((np && n > L) || (op && other && o >= L))
 		oe, ne := eff(o, op, oudv), eff(n, np, nudv)
+		if oldEv == nil && creators[u] {
+			oe = infLevel // the implicit level of a creator while there is no power-levels event
+			if ne == 9007199254740991 {
+				ne = infLevel // the library's spelling of that level
+			}
+		}
 		effv := oe != ne && (ne > L || (other && oe >= L))
 		_ = raw
 		if effv {
